@@ -203,12 +203,20 @@ func ZZ_C39_WriteStep() {
 
 // ZZ_C39_Stream: writer sends an m-byte message in arbitrary chunks and closes; reader reads with arbitrary buffer
 // sizes until an error. Received bytes == sent bytes, then EOF; afterwards both closed ends refuse I/O.
-func ZZ_C39_Stream() {
+func ZZ_C39_Stream() { zzStream(false) }
+
+// ZZ_C39_StreamReverse: the same over the other pipe of the pair (second conn writes, first conn reads).
+func ZZ_C39_StreamReverse() { zzStream(true) }
+
+func zzStream(reverse bool) {
 	c := rt.Choose("cap", rt.Bound("C")) + 1
 	M := rt.Bound("M")
 	m := rt.Choose("m", M+1)
 	msg := rt.BytesN("msg", m)
 	c1, c2 := BufferedPipe(c)
+	if reverse {
+		c1, c2 = c2, c1
+	}
 	var wg sync.WaitGroup
 	wg.Add(2)
 	var werr, cerr, rerr error
